@@ -3,12 +3,13 @@ namespace MayVerif.Io
 
 set_option hygiene false in
 macro "uprep" : tactic => `(tactic| (
+  obtain ⟨hF, hD, hR, hO, hS⟩ := hc
   obtain ⟨k0, lt, ls, lk, lw, lq, wt, ws, wk, ww, wq, u1, nb, nd⟩ := h
   have hu1 := u1 c; have hk0n := k0 st.nk
   (try simp [hpc, uSock] at hu1); (try simp at hk0n)))
 
 set_option maxHeartbeats 8000000 in
-theorem inv1_ustep (st st' : St) (c : Co) (pc : UPc) (e : Env) (h : Inv1 st)
+theorem inv1_ustep (st st' : St) (c : Co) (pc : UPc) (e : Env) (hc : Cfg st) (h : Inv1 st)
     (hpc : st.upc c = pc) (hs : ustep st c pc e = some st') : Inv1 st' := by
   cases pc with
   | idle => uprep; cases e <;> crunch
@@ -25,6 +26,6 @@ theorem inv1_ustep (st st' : St) (c : Co) (pc : UPc) (e : Env) (h : Inv1 st)
 
 theorem inv1_estep (st st' : St) (e : Env) (h : Inv1 st) (hs : estep st e = some st') : Inv1 st' := by
   obtain ⟨k0, lt, ls, lk, lw, lq, wt, ws, wk, ww, wq, u1, nb, nd⟩ := h
-  cases e <;> simp only [estep] at hs <;> first | contradiction | (simp only [Option.some.injEq] at hs; subst hs; constructor <;> assumption)
+  cases e <;> simp only [estep] at hs <;> (repeat' (split at hs)) <;> first | contradiction | (simp only [Option.some.injEq] at hs; subst hs; constructor <;> assumption)
 
 end MayVerif.Io
